@@ -21,6 +21,7 @@ type Adversary struct {
 	nextBlock uint64
 	BadBlocks map[uint64]bool // blocks every correct consumer rejects
 	own       []*interfaces.ConsensusRawMessage
+	pad       bool // next PREPARE / COMMIT / VIEW_CHANGE headers get trailing bytes
 }
 
 func NewAdversary(net *Net) *Adversary {
@@ -62,9 +63,21 @@ func (a *Adversary) mkPP(key []byte, inst, h, v uint64, b *FakeBlock) *interface
 	return interfaces.NewPreprepareMessage(a.ppContent(key, protocol.LEAN_HELIX_PREPREPARE, inst, h, v, hash).Build(), blk).ToConsensusRawMessage()
 }
 
+// padRef: with a.pad set, the signed header gets four trailing bytes inside its own size: every
+// accessor reads the same field values, the (Byzantine) sender's signature covers exactly those
+// bytes, but they are not the bytes the builders produce from the field values.
+func (a *Adversary) padRef(ref *protocol.BlockRefBuilder) (*protocol.BlockRefBuilder, []byte) {
+	raw := ref.Build().Raw()
+	if a.pad {
+		raw = append(append([]byte{}, raw...), 0, 0, 0, 0)
+		return protocol.BlockRefBuilderFromRaw(raw), raw
+	}
+	return ref, raw
+}
+
 func (a *Adversary) mkP(key []byte, t protocol.MessageType, inst, h, v uint64, hash []byte) *interfaces.ConsensusRawMessage {
-	ref := a.refB(t, inst, h, v, hash)
-	c := &protocol.PrepareContentBuilder{SignedHeader: ref, Sender: a.senderB(key, h, ref.Build().Raw())}
+	ref, raw := a.padRef(a.refB(t, inst, h, v, hash))
+	c := &protocol.PrepareContentBuilder{SignedHeader: ref, Sender: a.senderB(key, h, raw)}
 	return interfaces.NewPrepareMessage(c.Build()).ToConsensusRawMessage()
 }
 
@@ -73,14 +86,19 @@ func (a *Adversary) share(key []byte, h uint64) []byte {
 }
 
 func (a *Adversary) mkC(key []byte, t protocol.MessageType, inst, h, v uint64, hash []byte) *interfaces.ConsensusRawMessage {
-	ref := a.refB(t, inst, h, v, hash)
-	c := &protocol.CommitContentBuilder{SignedHeader: ref, Sender: a.senderB(key, h, ref.Build().Raw()), Share: a.share(key, h)}
+	ref, raw := a.padRef(a.refB(t, inst, h, v, hash))
+	c := &protocol.CommitContentBuilder{SignedHeader: ref, Sender: a.senderB(key, h, raw), Share: a.share(key, h)}
 	return interfaces.NewCommitMessage(c.Build()).ToConsensusRawMessage()
 }
 
 func (a *Adversary) vcContent(key []byte, t protocol.MessageType, inst, h, v uint64, proof *protocol.PreparedProofBuilder) *protocol.ViewChangeMessageContentBuilder {
 	hdr := &protocol.ViewChangeHeaderBuilder{MessageType: t, InstanceId: primitives.InstanceId(inst), BlockHeight: primitives.BlockHeight(h), View: primitives.View(v), PreparedProof: proof}
-	return &protocol.ViewChangeMessageContentBuilder{SignedHeader: hdr, Sender: a.senderB(key, h, hdr.Build().Raw())}
+	raw := hdr.Build().Raw()
+	if a.pad {
+		raw = append(append([]byte{}, raw...), 0, 0, 0, 0)
+		hdr = protocol.ViewChangeHeaderBuilderFromRaw(raw)
+	}
+	return &protocol.ViewChangeMessageContentBuilder{SignedHeader: hdr, Sender: a.senderB(key, h, raw)}
 }
 
 func (a *Adversary) mkVC(c *protocol.ViewChangeMessageContentBuilder, b *FakeBlock) *interfaces.ConsensusRawMessage {
@@ -286,7 +304,9 @@ func (a *Adversary) act() {
 				a.toAll(a.mkC(k, protocol.LEAN_HELIX_COMMIT, inst, h, v, blockHash(y)), "byz-commit")
 			}
 		}
-	case 2: // Byzantine PREPARE / COMMIT for whatever hash is on the wire for (h, v)
+	case 2: // Byzantine PREPARE / COMMIT for whatever hash is on the wire for (h, v); sometimes with a padded signed header
+		a.pad = r.Intn(3) == 0
+		defer func() { a.pad = false }()
 		for _, s := range a.seen() {
 			if m, ok := s.m.(*interfaces.PreprepareMessage); ok && uint64(m.BlockHeight()) == h && uint64(m.View()) == v {
 				hash := m.Content().SignedHeader().BlockHash()
